@@ -28,6 +28,8 @@ fn dispatch(prop: &str, rec: &mut Rec) {
         "C03" => checks::c03::run(rec),
         "C04" => checks::c04::run(rec),
         "C05" => checks::c05::run(rec),
+        "C06" => checks::c06::run(rec),
+        "C07" => checks::c07::run(rec),
         "C10" => checks::c10::run(rec),
         "C11" => checks::c11::run(rec),
         _ => {
